@@ -1,6 +1,6 @@
 (* C04 Watch runs once after its condition holds; Alarm re-arms. Statements only. *)
 From Coq Require Import ZArith List Bool Arith.
-From OP Require Import lib.Obs model.Interp model.InterpRun model.C02 model.C04 proofs.Interp_inv proofs.C05_proofs proofs.Interp_fields proofs.C02_proofs model.C05 proofs.C05_pending.
+From OP Require Import lib.Obs model.Interp model.InterpRun model.C02 model.C04 proofs.Interp_inv proofs.C05_proofs proofs.Interp_fields proofs.C02_proofs model.C05 proofs.C05_pending proofs.Interp_stack proofs.C02_order proofs.C04_order.
 Import ListNotations.
 Open Scope Z_scope.
 
@@ -41,8 +41,22 @@ Proof.
 Qed.
 Print Assumptions C04_no_handler_left_after_the_block_ended.
 
-(* PARTIAL. Decided by the Coq monitor on the real interpreter: a body line starts only while its Watch / Alarm is
-   activated; a Watch outside Alarm and Macro bodies never loses its activation; nothing of a body starts after the enclosing block
+(* "The body runs only after the condition held": in EVERY state after every tick of EVERY run, for every well-formed
+   method tree (wf_b, evaluated by the monitor on every generated method), outside Alarm and Macro bodies a started line
+   whose parent is a Watch has an ACTIVATED parent. With the first theorem (activation only when the condition evaluated
+   true or the Watch was forced): no line of a Watch body runs unless the Watch's condition held. Proof: stack invariant --
+   the children loop of a Watch is pushed only by the frame that saw `activated`, and outside Alarm / Macro bodies nothing
+   withdraws an activation. *)
+Theorem C04_watch_body_runs_only_after_activation : forall p ts, wf_b p = true ->
+  Forall (fun s => forall c q, n_parent (nd p c) = Some q -> n_kind (nd p q) = KWatch ->
+                               C02_order.plain p c = true -> C02_order.plain p q = true ->
+                               started (st s c) = true -> activated (st s q) = true)
+         (states p [FVisit 0] (InterpRun.init p) 0 ts).
+Proof. exact watch_body_runs_only_after_activation. Qed.
+Print Assumptions C04_watch_body_runs_only_after_activation.
+
+(* PARTIAL. Decided by the Coq monitor on the real interpreter: a body line of an ALARM starts only while the Alarm is
+   activated (for Watches: theorem above); a Watch outside Alarm and Macro bodies never loses its activation; nothing of a body starts after the enclosing block
    has ended. Cancel and force are not modelled (stage D). Observed and recorded in DESIGN.md: a Watch / Alarm nested
    inside an interrupt body is executed both inline by the enclosing generator and by its own interrupt -- the two
    generators share the node state, the body lines still run once per activation, but the alarm's run counter advances by
